@@ -167,8 +167,8 @@ type cell struct {
 	class func(rune) bool
 }
 
-func exact(s []rune) cell       { return cell{kind: cExact, text: s} }
-func exactS(s string) cell      { return cell{kind: cExact, text: []rune(s)} }
+func exact(s []rune) cell  { return cell{kind: cExact, text: s} }
+func exactS(s string) cell { return cell{kind: cExact, text: []rune(s)} }
 func (c cell) minLen() int {
 	if c.kind == cClass {
 		return c.n
